@@ -103,8 +103,22 @@ func c03Step(id string, op Op, ps []Pos, o Opts, pending bool) {
 		// region of the known finding: the requested amount is worth more validator shares
 		// than the validator holds (rounding), so the validator record is clamped
 		amt := nd.IntRange("amt", "1", Pow30)
-		if types.GetValidatorShares(preAsset, amt).GT(preVS) {
+		vsr := types.GetValidatorShares(preAsset, amt)
+		if vsr.GT(preVS) {
 			nd.Tag("valshare-clamp")
+		} else {
+			// second dust path: the validator keeps shares worth zero tokens, ClearDustDelegation
+			// removes them from the validator record only
+			rest := preVS.Sub(vsr)
+			at := preAsset
+			if op == OpUndelegate {
+				at.TotalTokens = preAsset.TotalTokens.Sub(amt)
+				at.TotalValidatorShares = preAsset.TotalValidatorShares.Sub(vsr)
+			}
+			if rest.IsPositive() && !at.TotalTokens.IsZero() &&
+				types.ConvertNewShareToDecToken(math.LegacyNewDecFromInt(at.TotalTokens), at.TotalValidatorShares, rest).IsZero() {
+				nd.Tag("valshare-dustclear")
+			}
 		}
 	}
 	nd.Reach(id)
